@@ -1,0 +1,169 @@
+//go:build verif
+
+package runtime
+
+import (
+	"fmt"
+	"strings"
+
+	"github.com/arnodel/golua/runtime/internal/luagc"
+)
+
+// This file only exists in builds with the "verif" tag.  It gives the
+// verification harness in /verif read-only views of internal state and
+// re-exports the internal luagc package.  It changes no behaviour.
+
+// VerifLayout renders the concrete layout of the table (array part and every
+// hash slot).  name renders a value (keys and values) in a process independent
+// way.
+func (t *Table) VerifLayout(name func(Value) string) string {
+	var sb strings.Builder
+	mt := t.mixedTable
+	if mt.array == nil {
+		sb.WriteString("A-")
+	} else {
+		fmt.Fprintf(&sb, "A[size=%d len=%d:", len(mt.array.values), mt.array.len)
+		for _, v := range mt.array.values {
+			sb.WriteByte(' ')
+			sb.WriteString(name(v))
+		}
+		sb.WriteString("]")
+	}
+	if mt.hashTable == nil {
+		sb.WriteString(" H-")
+	} else {
+		h := mt.hashTable
+		nf := int64(h.nextFree)
+		if h.nextFree == noNextFree {
+			nf = -1
+		}
+		fmt.Fprintf(&sb, " H[base=%d nextFree=%d:", h.base, nf)
+		for _, it := range h.slots {
+			fmt.Fprintf(&sb, " (%s=%s n%d f%d)", name(it.key), name(it.value), it.nextIndex(), it.nextFlags())
+		}
+		sb.WriteString("]")
+	}
+	return sb.String()
+}
+
+// VerifCheckInvariants checks the structural invariants documented in
+// hashtable.go (I1-I3), that the array length is the index of the last non-nil
+// array item, and that no key is stored twice.
+func (t *Table) VerifCheckInvariants() error {
+	mt := t.mixedTable
+	if a := mt.array; a != nil {
+		if a.len > uintptr(len(a.values)) {
+			return fmt.Errorf("array len %d > size %d", a.len, len(a.values))
+		}
+		if a.len > 0 && a.values[a.len-1].IsNil() {
+			return fmt.Errorf("array len %d but item %d is nil", a.len, a.len)
+		}
+		for i := int(a.len); i < len(a.values); i++ {
+			if !a.values[i].IsNil() {
+				return fmt.Errorf("array item %d non-nil beyond len %d", i+1, a.len)
+			}
+		}
+	}
+	h := mt.hashTable
+	if h == nil {
+		return nil
+	}
+	n := uintptr(len(h.slots))
+	if n != 1<<h.base {
+		return fmt.Errorf("hash part has %d slots but base %d", n, h.base)
+	}
+	mask := n - 1
+	for i := range h.slots {
+		it := h.slots[i]
+		if it.isEmpty() {
+			if !it.value.IsNil() {
+				return fmt.Errorf("slot %d: empty key with a value", i)
+			}
+			continue
+		}
+		for j := i + 1; j < len(h.slots); j++ {
+			if !h.slots[j].isEmpty() && h.slots[j].key.Equals(it.key) {
+				return fmt.Errorf("slots %d and %d hold equal keys", i, j)
+			}
+		}
+		if mt.array != nil {
+			if k, ok := it.key.TryInt(); ok && !it.value.IsNil() && k >= 1 && k <= int64(len(mt.array.values)) {
+				return fmt.Errorf("slot %d: live integer key %d belongs to the array part (size %d)", i, k, len(mt.array.values))
+			}
+		}
+		if mask < smallHashTableSize {
+			continue
+		}
+		p := it.key.Hash() & mask
+		if !it.isChained() && p != uintptr(i) {
+			return fmt.Errorf("slot %d: unchained item not in its primary slot %d (I3)", i, p)
+		}
+		if it.isChained() {
+			// must be reachable from its primary slot
+			steps := uintptr(0)
+			cur := p
+			found := false
+			if h.slots[cur].isEmpty() || h.slots[cur].isChained() {
+				return fmt.Errorf("slot %d: chained item whose primary slot %d does not start a chain (I3)", i, p)
+			}
+			for h.slots[cur].hasNext() {
+				cur = h.slots[cur].nextIndex()
+				if cur >= n {
+					return fmt.Errorf("slot %d: chain leaves the table", i)
+				}
+				if cur == uintptr(i) {
+					found = true
+					break
+				}
+				steps++
+				if steps > n {
+					return fmt.Errorf("slot %d: cyclic chain (I1)", i)
+				}
+			}
+			if !found {
+				return fmt.Errorf("slot %d: chained item not reachable from its primary slot %d (I2)", i, p)
+			}
+		}
+		if it.hasNext() {
+			nx := it.nextIndex()
+			if nx >= n || h.slots[nx].isEmpty() || !h.slots[nx].isChained() {
+				return fmt.Errorf("slot %d: next pointer %d does not lead to a chained item", i, nx)
+			}
+			if h.slots[nx].key.Hash()&mask != p {
+				return fmt.Errorf("slot %d: next item has a different primary slot (I2)", i)
+			}
+		}
+	}
+	if h.nextFree != noNextFree {
+		if h.nextFree >= n || !h.slots[h.nextFree].isEmpty() {
+			return fmt.Errorf("nextFree %d is not a free slot", h.nextFree)
+		}
+	}
+	return nil
+}
+
+// Re-exports of the internal luagc package for the harness.
+type (
+	VerifGCValue = luagc.Value
+	VerifGCKey   = luagc.Key
+	VerifGCPool  = luagc.Pool
+	VerifGCFlags = luagc.MarkFlags
+)
+
+const (
+	VerifGCFinalize = luagc.Finalize
+	VerifGCRelease  = luagc.Release
+)
+
+func VerifNewClonePool() VerifGCPool   { return luagc.NewClonePool() }
+func VerifNewUnsafePool() VerifGCPool  { return luagc.NewUnsafePool() }
+func VerifNewDefaultPool() VerifGCPool { return luagc.NewDefaultPool() }
+
+// VerifSetFinalizerSeam replaces the function the pools use to register Go
+// finalizers (nil restores runtime.SetFinalizer).
+func VerifSetFinalizerSeam(f func(obj interface{}, finalizer interface{})) {
+	luagc.VerifSetFinalizerSeam(f)
+}
+
+// VerifWeakRefPool returns the pool of the current context.
+func (r *Runtime) VerifWeakRefPool() VerifGCPool { return r.weakRefPool }
